@@ -37,7 +37,7 @@ type Ctl struct {
 	// per-table counters
 	Reads, Verdicts, Offers, Applies, FlushDone, OffWritten map[string]int
 	OpenOff, Ready, FieldsSet, FieldsDone                   map[string]int
-	Events                                          int
+	Events                                                  int
 	// abstract schema of the tables (for Open lines)
 	Abs map[string]TableAbs
 	// extra callback on every hook (fault injection, crash images)
